@@ -47,6 +47,12 @@ def check(R):
         total, nb, used = p7.analyse(R, 'P7', bodies, p7.load_audited(), 'C16')
         R.floor('panic-capable sites examined', total, 40)
         R.note(f'{total} panic-capable sites in {nb} of {len(bodies)} reader bodies; {len(used)} discharged by audited invariants')
+        # TLVContainer::iter unwraps element.container(): every way to obtain a TLVContainer must have validated the element kind
+        R.callers_confined('P1', 'tlv::traits::container::TLVContainer::new_unchecked',
+                           {'tlv::traits::container::TLVContainer::new', '<tlv::traits::container::TLVContainer<T, C> as tlv::traits::FromTLV>::from_tlv'}, min_callers=2)
+        ft = R.body('<tlv::traits::container::TLVContainer<T, C> as tlv::traits::FromTLV>::from_tlv')
+        R.cut('P2', ft, 'wrap the element as a container (new_unchecked)', call_bbs(ft, 'tlv::traits::container::TLVContainer::new_unchecked'), 'the element is empty or a container (element.container() ok)',
+              lambda: R.call_guard(ft, 'tlv::read::TLVElement::container') | R.call_guard(ft, 'tlv::read::TLVElement::is_empty'))
         # the three length sums use checked arithmetic
         for fn in ('tlv::read::TLVSequence::len', 'tlv::read::TLVSequence::container_len', 'tlv::read::TLVSequence::container_value_len'):
             b = R.body(fn)
